@@ -61,6 +61,19 @@ BENIGN = [
         what='comparison rewritten on UTC instants',
     ),
     dict(
+        id='benign-clock-read-late',
+        file=MAIN,
+        edits=[
+            ('                .unwrap_or(chrono::Local::now()),',
+             '                .unwrap_or_else(|_| {\n'
+             '                    let _first = chrono::Local::now();\n'
+             '                    let _second = chrono::Utc::now();\n'
+             '                    chrono::Local::now()\n'
+             '                }),'),
+        ],
+        what='the wall clock is read several times and a later reading is used (legal: any reading taken during the run is "now")',
+    ),
+    dict(
         id='benign-target-set-refactoring',
         file=MAIN,
         edits=[
